@@ -453,9 +453,6 @@ Proof.
   rewrite (semi_cons _ _ _ _ Hs). cbn [pbind]. rewrite !cur_cons. eexists. reflexivity.
 Qed.
 
-Lemma lastt_suffix1 l pre x : l = pre ++ [x] -> lastt l = x.
-Proof. intros ->. unfold lastt. apply last_last. Qed.
-
 Lemma pdfields_rt : forall fs n pv x rb rest acc,
   Forall cdfield fs -> typ rb = T_RIGHT_BRACE -> length fs < n ->
   okst (pdfields fok n (St pv (x :: flat_map ydfield fs ++ rb :: rest)) acc)
